@@ -1,4 +1,238 @@
-From NV Require Import Base C08_Model C08_Proofs.
-Theorem C08_placeholder : True.
-Proof. exact placeholder. Qed.
-Print Assumptions C08_placeholder.
+(* C08 — The policy statement applied is the one scoped to the artifact's repository.
+   Statements only; every proof is [exact <lemma of C08_Proofs>].
+   [model i] is the correspondence-checked model: it lays the document [i_doc i] out on a heap
+   of Go objects (structs, backing arrays, maps), runs the selection [i_q1 i] with the loops and
+   clone() of the code, lets the caller write [i_ws i] through the pointer it received, and
+   selects again ([i_q2 i]).  [o_r1 (model i)] is the first result, [o_r2 (model i)] the later one.
+   Quantifiers: documents with any number of statements, any strings, any writes. *)
+From Coq Require Import Permutation.
+From NV Require Import Base Regex Generated C08_Model C08_Proofs.
+Open Scope string_scope.
+
+(* [model] computes, through the heap, exactly the value-level selection; a later selection
+   is that of the pristine document whatever the caller wrote through what it got, and the
+   document is deeply unchanged *)
+Theorem C08_model_closed_form : forall i,
+  model i =
+  mk_obs (v_select (i_doc i) (i_q1 i)) (v_select (i_doc i) (i_q2 i)) true
+         (if i_ver i && is_oci (i_q1 i) then skipverify_of (v_select (i_doc i) (ver_query (i_q1 i))) else 9%N)
+         (if i_ver i then ver_of (v_select (i_doc i) (ver_query (i_q1 i))) else VNA).
+Proof. exact model_eq. Qed.
+Print Assumptions C08_model_closed_form.
+
+(* valid document, reference registry/repository@digest: the statement applied is the unique
+   statement whose scopes contain exactly registry/repository; failing that the unique wildcard
+   statement (whose scopes are exactly ["*"]); failing that error 3 (no applicable statement).
+   Uniqueness is derived from validity. *)
+Theorem C08_selects : forall i p dg,
+  wf i = true -> i_q1 i = QOci (p ++ "@" ++ dg) -> contains_byte "@" dg = false -> scope_ok p = true ->
+  let d := i_doc i in
+  let r := o_r1 (model i) in
+  (forall s, In s d -> In p (s_scopes s) ->
+     r = RSel s /\ forall s', In s' d -> In p (s_scopes s') -> s' = s)
+  /\ ((forall s, In s d -> ~ In p (s_scopes s)) ->
+      (forall w, In w d -> In wildcard (s_scopes w) ->
+         r = RSel w /\ s_scopes w = [wildcard] /\
+         forall w', In w' d -> In wildcard (s_scopes w') -> w' = w)
+      /\ ((forall s, In s d -> ~ In wildcard (s_scopes s)) -> r = RErr 3)).
+Proof. exact m_selects. Qed.
+Print Assumptions C08_selects.
+
+(* every reference that has an '@' is of that form, the path being the text before the LAST '@' *)
+Theorem C08_reference_shape : forall ref p,
+  last_at ref = Some p <-> exists dg, ref = p ++ "@" ++ dg /\ contains_byte "@" dg = false.
+Proof. exact reference_shape. Qed.
+Print Assumptions C08_reference_shape.
+
+(* malformed references (no '@': tag-only, bare repository; or a registry/repository part
+   that is not a valid scope) are refused whatever the document contains, wildcard included *)
+Theorem C08_malformed_refused : forall i ref,
+  i_q1 i = QOci ref ->
+  (contains_byte "@" ref = false -> o_r1 (model i) = RErr 1)
+  /\ (forall p dg, ref = p ++ "@" ++ dg -> contains_byte "@" dg = false -> scope_ok p = false ->
+        o_r1 (model i) = RErr 2).
+Proof. exact m_malformed_refused. Qed.
+Print Assumptions C08_malformed_refused.
+
+(* matching is string equality only, for EVERY document (valid or not): a statement is handed
+   out only if its scopes contain the path itself, or the wildcard while every statement that
+   lists the path is a wildcard statement; and it is a statement of the document, unchanged *)
+Theorem C08_exact : forall i ref s,
+  i_q1 i = QOci ref -> o_r1 (model i) = RSel s ->
+  exists p, last_at ref = Some p /\ scope_ok p = true /\ In s (i_doc i) /\
+    (In p (s_scopes s) \/
+     (In wildcard (s_scopes s) /\
+      forall s', In s' (i_doc i) -> In wildcard (s_scopes s') \/ ~ In p (s_scopes s'))).
+Proof. exact m_exact. Qed.
+Print Assumptions C08_exact.
+
+(* corollary: a path that is a proper prefix, an extension, a case variant, or anything else
+   that is not EQUAL to a listed scope never selects a non-wildcard statement *)
+Theorem C08_no_near_miss : forall i p dg s,
+  i_q1 i = QOci (p ++ "@" ++ dg) -> contains_byte "@" dg = false ->
+  (forall x, In x (s_scopes s) -> x <> p) -> ~ In wildcard (s_scopes s) ->
+  o_r1 (model i) <> RSel s.
+Proof. exact m_no_near_miss. Qed.
+Print Assumptions C08_no_near_miss.
+
+(* never by tag or by case folding of the repository: a registry/repository part whose
+   repository contains ':' or an upper-case letter is refused outright *)
+Theorem C08_tag_or_upper_refused : forall i p dom repo dg c,
+  i_q1 i = QOci (p ++ "@" ++ dg) -> contains_byte "@" dg = false ->
+  cut_byte "/" p = Some (dom, repo) -> contains_byte c repo = true ->
+  (c = ":"%char \/ ((65 <=? N_of_ascii c) && (N_of_ascii c <=? 90))%N = true) ->
+  o_r1 (model i) = RErr 2.
+Proof. exact m_tag_or_upper_refused. Qed.
+Print Assumptions C08_tag_or_upper_refused.
+
+(* the choice does not depend on the order of the statements (every kind of selection) *)
+Theorem C08_order : forall i i',
+  wf i = true -> Permutation (i_doc i) (i_doc i') -> i_q1 i' = i_q1 i ->
+  o_r1 (model i') = o_r1 (model i).
+Proof. exact m_order. Qed.
+Print Assumptions C08_order.
+
+(* blobs: the statement with exactly the requested name (unique by validity) *)
+Theorem C08_blob_name : forall i n,
+  wf i = true -> i_q1 i = QName n -> blank n = false ->
+  let d := i_doc i in
+  let r := o_r1 (model i) in
+  (forall s, In s d -> s_name s = n ->
+     r = RSel s /\ forall s', In s' d -> s_name s' = n -> s' = s)
+  /\ ((forall s, In s d -> s_name s <> n) -> r = RErr 5).
+Proof. exact m_blob_name. Qed.
+Print Assumptions C08_blob_name.
+
+(* ... an empty or blank name is an error, and a name never matches anything but itself *)
+Theorem C08_blob_blank_or_exact : forall i n,
+  i_q1 i = QName n ->
+  (blank n = true -> o_r1 (model i) = RErr 4)
+  /\ (forall s, o_r1 (model i) = RSel s -> In s (i_doc i) /\ s_name s = n /\ blank n = false).
+Proof. exact m_blob_blank_or_exact. Qed.
+Print Assumptions C08_blob_blank_or_exact.
+
+(* ... the single global statement when no name is given *)
+Theorem C08_blob_global : forall i,
+  wf i = true -> i_q1 i = QGlobal ->
+  let d := i_doc i in
+  let r := o_r1 (model i) in
+  (forall s, In s d -> s_global s = true ->
+     r = RSel s /\ forall s', In s' d -> s_global s' = true -> s' = s)
+  /\ ((forall s, In s d -> s_global s = false) -> r = RErr 6).
+Proof. exact m_blob_global. Qed.
+Print Assumptions C08_blob_global.
+
+(* VerifyBlob without a policy name uses the global selection *)
+Theorem C08_blob_no_name_is_global : forall i,
+  i_ver i = true -> i_q1 i = QName "" ->
+  o_ver (model i) = ver_of (v_select (i_doc i) QGlobal).
+Proof. exact m_blob_no_name_is_global. Qed.
+Print Assumptions C08_blob_no_name_is_global.
+
+(* private copy, heap level: the struct handed out and every object it points to are
+   allocated by the selection (at or above the size of the heap holding the document),
+   every object reachable from the document lies below *)
+Theorem C08_private_copy_disjoint : forall d q h0 doc h1 p,
+  load_doc [] d = (h0, doc) -> h_select true h0 doc q = (h1, HSel p) ->
+  (forall o, In o (reach h1 p) -> (List.length h0 <= o)%nat)
+  /\ (forall sid o, In sid doc -> In o (reach h1 sid) -> (o < List.length h0)%nat).
+Proof. exact handed_out_disjoint. Qed.
+Print Assumptions C08_private_copy_disjoint.
+
+(* private copy, behaviour: in ANY session — any number of selections interleaved with any
+   writes (fields, slice elements, appends, map entries) through any of the statements handed
+   out so far — every selection returns what the pristine document prescribes, no object of
+   the document is written, and the document is deeply unchanged at the end *)
+Theorem C08_private_copy : forall d ops h0 doc rs hf,
+  load_doc [] d = (h0, doc) -> session true doc h0 [] ops = (rs, hf) ->
+  rs = map (v_select d) (sel_queries ops)
+  /\ map (view hf) doc = d
+  /\ forall o, (o < List.length h0)%nat -> nth_error hf o = nth_error h0 o.
+Proof. exact session_private. Qed.
+Print Assumptions C08_private_copy.
+
+(* the same on the correspondence model: the later selection is the first selection of a
+   fresh run, whatever was written *)
+Theorem C08_later_selection_unaffected : forall d acc q1 ws q2 ver,
+  o_r2 (model (mk_input d acc q1 ws q2 ver)) = o_r1 (model (mk_input d acc q2 [] q2 ver))
+  /\ o_same (model (mk_input d acc q1 ws q2 ver)) = true.
+Proof. exact m_later_selection_unaffected. Qed.
+Print Assumptions C08_later_selection_unaffected.
+
+(* the copy that shares the override map (SignatureVerification copied by value: the code
+   before fix 355ef9e, [deep] = false) is NOT private: witness *)
+Theorem C08_private_copy_shallow_refuted :
+  exists d ops h0 doc, valid_doc d = true /\ load_doc [] d = (h0, doc) /\
+    fst (session false doc h0 [] ops) <> map (v_select d) (sel_queries ops).
+Proof. exact shallow_refuted. Qed.
+Print Assumptions C08_private_copy_shallow_refuted.
+
+(* selection errors, and only they, surface as ErrorNoApplicableTrustPolicy from
+   SkipVerify / Verify / VerifyBlob; otherwise the verifier works with the selected statement *)
+Theorem C08_error_kind : forall i,
+  i_ver i = true -> ver_query (i_q1 i) = i_q1 i ->
+  (o_ver (model i) = VNoPolicy <-> is_err (o_r1 (model i)) = true)
+  /\ (is_oci (i_q1 i) = true -> (o_sv (model i) = 0%N <-> is_err (o_r1 (model i)) = true))
+  /\ o_ver (model i) = ver_of (o_r1 (model i)).
+Proof. exact m_error_kind. Qed.
+Print Assumptions C08_error_kind.
+
+(* the boolean oracle evaluated on the implementation's observations is met by the model
+   on every input whose document is valid *)
+Theorem C08_model_meets_oracle : forall i, wf i = true -> spec_ok i (model i) = true.
+Proof. exact model_spec_ok. Qed.
+Print Assumptions C08_model_meets_oracle.
+
+(* ---- non-vacuity ---- *)
+(* ex_doc = [ab: reg.io/a/b, reg.io:80/a/b; abc: reg.io/a/b/c; any: *], ex_blob = [b0; B0 (global)] : C08_Proofs *)
+(* a valid three-statement document with nested scopes and a wildcard: the nested path, the
+   extension and the near misses each get their own answer; writing through the result and
+   selecting again gives the same *)
+Example C08_example_select :
+  let i := mk_input ex_doc true (QOci "reg.io/a/b@sha256:00") (wall "x") (QOci "reg.io/a/b@sha256:00") true in
+  wf i = true
+  /\ o_r1 (model i) = RSel (nth 0 ex_doc dummy_stmt)
+  /\ o_r2 (model i) = RSel (nth 0 ex_doc dummy_stmt)
+  /\ o_same (model i) = true
+  /\ o_ver (model i) = VUsed (Some "k0").
+Proof. vm_compute. repeat split; reflexivity. Qed.
+
+Example C08_example_near_misses :
+  let sel ref := o_r1 (model (mk_input ex_doc true (QOci ref) [] (QOci ref) false)) in
+  sel "reg.io/a/b/c@sha256:00" = RSel (nth 1 ex_doc dummy_stmt)
+  /\ sel "reg.io/a@sha256:00" = RSel (nth 2 ex_doc dummy_stmt)          (* prefix: wildcard *)
+  /\ sel "reg.io/a/bc@sha256:00" = RSel (nth 2 ex_doc dummy_stmt)       (* sibling *)
+  /\ sel "REG.io/a/b@sha256:00" = RSel (nth 2 ex_doc dummy_stmt)        (* case variant of the registry *)
+  /\ sel "reg.io/a/B@sha256:00" = RErr 2                               (* case variant of the repository *)
+  /\ sel "reg.io/a/b:v1@sha256:00" = RErr 2                            (* tag *)
+  /\ sel "reg.io/a/b:v1" = RErr 1                                      (* tag only *)
+  /\ sel "reg.io/a/b/c@x@sha256:00" = RErr 2                           (* path is the text before the LAST '@' *)
+  /\ o_r1 (model (mk_input (firstn 2 ex_doc) true (QOci "reg.io/a@sha256:00") [] QGlobal false)) = RErr 3.
+Proof. vm_compute. repeat split; reflexivity. Qed.
+
+Example C08_example_permuted :
+  Permutation ex_doc (rev ex_doc)
+  /\ o_r1 (model (mk_input (rev ex_doc) true (QOci "reg.io/a/b@sha256:00") [] QGlobal false))
+     = RSel (nth 0 ex_doc dummy_stmt).
+Proof. split; [apply Permutation_rev | vm_compute; reflexivity]. Qed.
+
+Example C08_example_blob :
+  let sel q := o_r1 (model (mk_input ex_blob true q (wall "x") q false)) in
+  valid_doc ex_blob = true
+  /\ sel (QName "b0") = RSel (nth 0 ex_blob dummy_stmt)
+  /\ sel (QName "B0") = RSel (nth 1 ex_blob dummy_stmt)
+  /\ sel (QName "b") = RErr 5 /\ sel (QName "b0 ") = RErr 5
+  /\ sel (QName "") = RErr 4 /\ sel (QName "  ") = RErr 4
+  /\ sel QGlobal = RSel (nth 1 ex_blob dummy_stmt)
+  /\ o_ver (model (mk_input ex_blob true (QName "") [] QGlobal true)) = VUsed (Some "k1").
+Proof. vm_compute. repeat split; reflexivity. Qed.
+
+(* a session with two selections and writes through both results *)
+Example C08_example_session :
+  let '(h0, doc) := load_doc [] ex_doc in
+  let q := QOci "reg.io/a/b@sha256:00" in
+  fst (session true doc h0 []
+         [OSel q; OWr 0 (WMapSet "revocation" "skip"); OWr 0 (WFill FScopes "x"); OSel q;
+          OWr 1 (WAppend FStores "ca:evil"); OWr 0 (WName "z"); OSel q])
+  = [RSel (nth 0 ex_doc dummy_stmt); RSel (nth 0 ex_doc dummy_stmt); RSel (nth 0 ex_doc dummy_stmt)].
+Proof. vm_compute. reflexivity. Qed.
